@@ -117,8 +117,12 @@ type mwCfg struct {
 	Refuse bool   `json:"refuse_any"`
 }
 
-func mwConfigs() (cfgs []mwCfg) {
-	for _, n := range [][2]uint{{1, 2}, {2, 1}} {
+func mwConfigs(thorough bool) (cfgs []mwCfg) {
+	pairs := [][2]uint{{1, 2}, {2, 1}}
+	if thorough {
+		pairs = append(pairs, [2]uint{2, 2}, [2]uint{1, 3})
+	}
+	for _, n := range pairs {
 		for _, bc := range []uint{1, 2} {
 			for _, refuse := range []bool{true, false} {
 				cfgs = append(cfgs, mwCfg{N4: n[0], RPS: uint32(n[1]), BC: bc, Refuse: refuse})
@@ -252,7 +256,7 @@ func mwOwnLimit(c mwClient) (ok bool) {
 
 func (w *mwWorld) digest(now time.Time) (s string) {
 	nowNs := now.UnixNano()
-	s = fmt.Sprintf("%+v\n%s\nX %s\nY %s\n#%s", w.cfg, ratelimit.VerifDump(w.backoff, now),
+	s = fmt.Sprintf("%s\nX %s\nY %s\n#%s", ratelimit.VerifDump(w.backoff, now),
 		ratelimit.VerifDumpCounter(agd.VerifCounter(w.profs["X"].Ratelimiter.(*agd.DefaultRatelimiter)), now),
 		ratelimit.VerifDumpCounter(agd.VerifCounter(w.profs["Y"].Ratelimiter.(*agd.DefaultRatelimiter)), now),
 		w.global.Key(nowNs))
@@ -422,6 +426,7 @@ func mwIsStep(ei int) (ok bool) { return mwAlphabet[ei].Adv != "" }
 func mwBFS(r *vrt.Run, expired *atomic.Bool, cfg mwCfg, depth, nAlpha int) {
 	seen := map[[20]byte]struct{}{}
 	frontier := [][]uint8{{}}
+	cfgID := fmt.Sprintf("%+v\n", cfg)
 	for d := 1; d <= depth && len(frontier) > 0; d++ {
 		var next [][]uint8
 		for _, h := range frontier {
@@ -465,7 +470,7 @@ func mwBFS(r *vrt.Run, expired *atomic.Bool, cfg mwCfg, depth, nAlpha int) {
 					continue
 				}
 				seen[k20] = struct{}{}
-				r.State(digest)
+				r.State(cfgID + digest)
 				if d < depth {
 					nh := make([]uint8, d)
 					copy(nh, h)
@@ -482,7 +487,7 @@ func TestVerifC09MW(t *testing.T) {
 	r := vrt.Start("C09")
 	depth := vrt.Pick(r, 5, 7)
 	nAlpha := vrt.Pick(r, mwQuickAlpha, len(mwAlphabet))
-	cfgs := mwConfigs()
+	cfgs := mwConfigs(r.Thorough())
 	r.Bound("mw_depth", depth)
 	r.Bound("mw_alphabet", nAlpha)
 	r.Bound("mw_configs", len(cfgs))
